@@ -409,7 +409,7 @@ fn main() {
         property: "C05",
         classes: CLASSES,
         required: &["offset_ok", "wall_single", "wall_ambiguous", "wall_none", "exempt_second", "equal_offset_transition", "rule_zone", "table_zone", "footer_after_table", "system_zone", "southern_rule", "negative_dst", "public_route"],
-        rule: "zones: (a) ALL bounded zone models — 0..=3 transitions, types from a 13-entry palette (6 offsets x dst flag + an abbreviation-only variant), spacings {1 s, 3599 s, 1 h, 2 h, 1 d, 30 d}, footer {none, fixed, alternate rule consistent with the last type}, written as TZif v1/v2/v3 fat/slim with/without indicators by an independent writer; (b) a POSIX rule grid: std x dst-std (incl. negative DST) x all pairs of rule days (Mm.w.d grid, Jn, n) x rule times, kept when both transitions lie more than one day inside the year; (b') every rule day there is (12 months x 5 weeks x 7 weekdays, J1..J365, 0..365) once as start and once as end, the other end half a year away, over a full 28-year weekday/leap cycle; (c) every TZif file of the system zoneinfo database without leap records, decoded by an independent reader. instants: every second within +-2 s of every transition and of its wall-clock images, midpoints, 1 Jan / 1 Jul of probe years, both range ends; both directions through the guarded accessor, and through the real Local (TZ=:file / TZ=rule on a fresh thread) for the system zones and a stride of the others. oracle: offset_at, and the wall-clock answer = brute-force inversion of offset_at (0 -> None, 1 -> Single, 2 -> Ambiguous earliest first); the boundary second T + offset_before is exempt",
+        rule: "zones: (a) ALL bounded zone models — 0..=3 transitions, types from a 13-entry palette (6 offsets x dst flag + an abbreviation-only variant), spacings {1 s, 3599 s, 1 h, 2 h, 1 d, 30 d}, footer {none, fixed, alternate rule consistent with the last type}, written as TZif v1/v2/v3 fat/slim with/without indicators by an independent writer; (b) a POSIX rule grid: std x dst-std (incl. negative DST) x all pairs of rule days (Mm.w.d grid, Jn, n) x rule times, kept when both transitions lie more than one day inside the year; (b') every rule day there is (12 months x 5 weeks x 7 weekdays, J1..J365, 0..365) once as start and once as end, the other end half a year away, over a full 28-year weekday/leap cycle; (b'') footers read from version 3 / 2 files carrying every kind of rule time (both signs, minute and second parts, range ends of the extended form); (a') tables of 255..1000 and 65,535..70,000 daily transitions cycling through three offsets (offset at every transition -1/0/+1 s, wall clocks around and inside every skipped / repeated interval); (c) every TZif file of the system zoneinfo database without leap records, decoded by an independent reader. instants: every second within +-2 s of every transition and of its wall-clock images, midpoints, 1 Jan / 1 Jul of probe years, both range ends; both directions through the guarded accessor, and through the real Local (TZ=:file / TZ=rule on a fresh thread) for the system zones and a stride of the others. oracle: offset_at, and the wall-clock answer = brute-force inversion of offset_at (0 -> None, 1 -> Single, 2 -> Ambiguous earliest first); the boundary second T + offset_before is exempt",
         assumptions: &["leap-second (right/) files are excluded by the statement", "wall clocks with more than two readings (transitions closer together than the offset change) are counted, not judged", "rule evaluation near the calendar year ends is outside the statement's proviso"],
     };
     let tier = args.tier;
